@@ -227,7 +227,24 @@ func (u *Unit) execSend(st *State, fr *Frame, x *ssa.Send) {
 	u.chanSendEffect(st, x, c, v)
 }
 
+// syncPoint: the goroutine reaches an operation through which another goroutine's writes
+// can become visible (channel receive, select, lock). Variables a goroutine spawned here
+// writes have, from now on, whatever value that goroutine left in them: nothing of the
+// spawned body's contract is assumed by the spawner, so the value is unknown.
+func (u *Unit) syncPoint(st *State) {
+	for i, a := range st.Volatile {
+		if i >= len(st.VolTys) {
+			break
+		}
+		t := st.VolTys[i]
+		nv := u.FreshOfType(st, "vol", t)
+		u.clockFacts(nv, t, 0)
+		u.store(st, a, t, nv)
+	}
+}
+
 func (u *Unit) execRecv(st *State, fr *Frame, x *ssa.UnOp) {
+	u.syncPoint(st)
 	c := u.term(st, fr, x.X)
 	u.blockingOp(st, fr, x, "receive")
 	u.havocChans(st)
@@ -258,6 +275,7 @@ func (u *Unit) blockingOp(st *State, fr *Frame, in ssa.Instruction, what string)
 }
 
 func (u *Unit) execSelect(st *State, fr *Frame, x *ssa.Select, k Kont) {
+	u.syncPoint(st)
 	u.curFrame = fr
 	n := len(x.States)
 	chans := make([]Term, n)
@@ -430,6 +448,7 @@ func (u *Unit) execGo(st *State, fr *Frame, x *ssa.Go) {
 		for i, fv := range clo.Fn.FreeVars {
 			if i < len(clo.Bindings) && clo.Bindings[i].Cell == nil && freeVarWritten(clo.Fn, fv) {
 				st.Volatile = append(st.Volatile, clo.Bindings[i].T)
+				st.VolTys = append(st.VolTys, derefType(fv.Type()))
 			}
 		}
 	}
@@ -558,6 +577,7 @@ func (u *Unit) syncCall(st *State, fr *Frame, site ssa.Instruction, name string,
 	switch name {
 	case "(*sync.Mutex).Lock", "(*sync.RWMutex).Lock", "(*sync.RWMutex).RLock":
 		mu := args[0]
+		u.syncPoint(st)
 		u.lockSetCheck(st, fr, site, []Term{mu}, "Lock")
 		held := u.ghostGet(st, "held", SInt, mu)
 		st.Assume(Ge(held, IntLit(0)))
@@ -599,6 +619,7 @@ func (u *Unit) syncCall(st *State, fr *Frame, site ssa.Instruction, name string,
 		u.ghostSet(st, "wg", SInt, wg, Sub(c, IntLit(1)))
 		return true
 	case "(*sync.WaitGroup).Wait":
+		u.syncPoint(st)
 		return true
 	}
 	return false
